@@ -210,6 +210,7 @@ def run(ck, F, E):
         ok = len(cs) == 1 and strip_expr(wz.expr(cs[0].args[1])) == ("param", 1) and wz.local_ty(2) == "u64"
         ck.require(ok, "C18:SEED:web-forwards", "seeding", "the Web adapter forwards its u64 seed unchanged",
                    "JsInterpreter::randomize no longer forwards the 64-bit seed unchanged", wz.span)
+    whole_overwrites(ck, F)
     # who else touches Interpreter.rng
     ws = E.writers_of_field("interpreter::Interpreter", "rng")
     names = sorted(ws)
@@ -217,6 +218,34 @@ def run(ck, F, E):
     ck.require(all(any(sfx(n, a) for a in allowed) for n in names), "C18:SEED:rng-writers", "seeding",
                "Interpreter.rng is touched only by randomize and the RND builtin (%s)" % names,
                "Interpreter.rng is modified in %s" % names)
+
+
+def whole_overwrites(ck, F):
+    """The field-wise writer rule does not see `*self = Interpreter { .. }` (or mem::replace / swap / take of the whole
+    struct), which replaces the generator along with everything else: inside the core nothing may overwrite a whole
+    Interpreter or a whole Rng except the constructors."""
+    bad = []
+    n = 0
+    for body in F.bodies.values():
+        if body.crate != "abasic_core":
+            continue
+        for b, i, pl, rv, sp in body.assigns():
+            if [p["k"] for p in pl["proj"]] != ["deref"]:
+                continue
+            ty = body.local_ty(pl["local"])
+            n += 1
+            if ty.startswith("&mut abasic_core::interpreter::Interpreter") or ty.startswith("&mut abasic_core::random::Rng"):
+                bad.append("%s assigns *%s" % (body.path, body.local_name(pl["local"]) or "_%d" % pl["local"]))
+        for c in body.calls():
+            if c.callee.split("::")[-1] in ("replace", "swap", "take") and c.callee.startswith("core::mem::") and c.args:
+                a0 = c.args[0]
+                if a0.get("k") in ("copy", "move"):
+                    ty = a0["place"].get("ty", "")
+                    if ty.startswith("&mut abasic_core::interpreter::Interpreter") or ty.startswith("&mut abasic_core::random::Rng"):
+                        bad.append("%s calls %s on the whole value" % (body.path, c.callee))
+    ck.require(not bad, "C18:SEED:no-whole-overwrite", "seeding",
+               "no function of the core overwrites a whole Interpreter / Rng in place",
+               "the generator state can be replaced wholesale, bypassing randomize(): %s" % "; ".join(bad[:3]))
 
 
 def dispatch(ck, rn):
